@@ -582,7 +582,16 @@ def mi2(ctx):
                                 discriminated = True
                     elif re.search(r'Result::<.*>::(unwrap|expect)$', c2.name):
                         discriminated = True   # panics on Err: does not continue
-                    elif re.search(r'Result::<.*>::(is_err|is_ok|ok|unwrap_or|unwrap_or_default|unwrap_or_else)$', c2.name):
+                    elif re.search(r'Result::<.*>::(is_err|is_ok)$', c2.name):
+                        # the test itself says which way an Err goes: the true edge of is_err / the false edge of is_ok
+                        edges_ = [(te, fe) for (_bi, _c, te, fe, c3) in b.switches_on_call(lambda c: c is c2)]
+                        if edges_:
+                            for (te, fe) in edges_:
+                                err_starts.append((te if c2.name.endswith('is_err') else fe)[1])
+                        else:
+                            err_starts.append(c2.point)
+                        discriminated = True
+                    elif re.search(r'Result::<.*>::(ok|unwrap_or|unwrap_or_default|unwrap_or_else)$', c2.name):
                         err_starts.append(c2.point)
                         discriminated = True
             for (bi, pl, adt, edges) in b.discr_switches():
